@@ -735,3 +735,91 @@ Proof.
         cbn [option_map] in *; try discriminate; [|reflexivity].
       rewrite !obs_obj. congruence.
 Qed.
+
+(** ** The pinned rule differs from the intended one on falsy values only *)
+
+(** Every value provided inside [v] (at any depth) is truthy. *)
+Fixpoint all_truthy (v : pval) : bool :=
+  match v with
+  | VObj fs =>
+      (fix go (fs : list (option pval)) : bool :=
+         match fs with
+         | [] => true
+         | f :: fs' => match f with Some x => all_truthy x | None => true end && go fs'
+         end) fs
+  | _ => truthy v
+  end.
+
+Fixpoint fields_truthy (fs : list (option pval)) : bool :=
+  match fs with
+  | [] => true
+  | f :: fs' => match f with Some x => all_truthy x | None => true end && fields_truthy fs'
+  end.
+
+Lemma all_truthy_obj fs : all_truthy (VObj fs) = fields_truthy fs.
+Proof. induction fs as [|f fs IH]; simpl; [reflexivity|]. simpl in IH. rewrite IH. reflexivity. Qed.
+
+Lemma all_truthy_truthy v : all_truthy v = true -> truthy v = true.
+Proof. destruct v; simpl; auto. Qed.
+
+Definition mfield_pinned (ow : bool) (f g : option pval) : option (option pval) :=
+  match f, g with
+  | Some x', Some y' => option_map Some (merge_pinned ow x' y')
+  | _, None => Some f
+  | None, Some _ => Some (por g f)
+  end.
+
+Fixpoint mgo_pinned (ow : bool) (fs gs : list (option pval)) {struct fs} : option (list (option pval)) :=
+  match fs, gs with
+  | [], _ => Some (map (fun g => por g None) gs)
+  | _, [] => Some fs
+  | f :: fs', g :: gs' =>
+      match mfield_pinned ow f g with
+      | None => None
+      | Some h => match mgo_pinned ow fs' gs' with
+                  | None => None
+                  | Some r => Some (h :: r)
+                  end
+      end
+  end.
+
+Lemma merge_pinned_obj ow fs gs :
+  merge_pinned ow (VObj fs) (VObj gs) = option_map VObj (mgo_pinned ow fs gs).
+Proof.
+  simpl. f_equal. revert gs. induction fs as [|f fs IH]; intros gs; [reflexivity|].
+  destruct gs as [|g gs]; [reflexivity|]. simpl. rewrite IH. reflexivity.
+Qed.
+
+Arguments merge_pinned : simpl never.
+Arguments all_truthy : simpl never.
+
+Definition pinned_agrees_at (x : pval) : Prop :=
+  forall ow y, all_truthy y = true -> merge_pinned ow x y = merge ow x y.
+
+Lemma por_truthy_fields gs : fields_truthy gs = true -> map (fun g => por g None) gs = gs.
+Proof.
+  induction gs as [|[y|] gs IH]; simpl; auto.
+  - rewrite andb_true_iff. intros [Hy Hgs]. rewrite (all_truthy_truthy y Hy), IH by exact Hgs. reflexivity.
+  - intros H. rewrite IH by exact H. reflexivity.
+Qed.
+
+Lemma mgo_pinned_agrees ow fs : Forall (optP pinned_agrees_at) fs -> forall gs,
+  fields_truthy gs = true -> mgo_pinned ow fs gs = mgo ow fs gs.
+Proof.
+  induction 1 as [|f fs Hf _ IH]; intros gs Hgs.
+  - simpl. rewrite por_truthy_fields by exact Hgs. reflexivity.
+  - destruct gs as [|g gs]; [reflexivity|]. simpl in Hgs. rewrite andb_true_iff in Hgs. destruct Hgs as [Hg Hgs].
+    cbn [mgo_pinned mgo]. rewrite (IH gs Hgs).
+    replace (mfield_pinned ow f g) with (mfield ow f g); [reflexivity|].
+    destruct f as [x|], g as [y|]; simpl; try reflexivity.
+    + rewrite (Hf ow y Hg). reflexivity.
+    + rewrite (all_truthy_truthy y Hg). reflexivity.
+Qed.
+
+Lemma pinned_agrees : forall x, pinned_agrees_at x.
+Proof.
+  induction x as [a|l|l|fs IH] using pval_ind'; intros ow y Hy; try reflexivity.
+  destruct y as [b|m|m|gs]; try reflexivity.
+  rewrite all_truthy_obj in Hy. rewrite merge_pinned_obj, merge_obj, (mgo_pinned_agrees ow fs IH gs Hy).
+  reflexivity.
+Qed.
